@@ -243,9 +243,9 @@ theorem subdir_is_subtree (special : Str → Bool) (t : List CEnt) (s : List Nam
     have h0 : c.cpath ≠ [] := by rw [he]; simp [hne]
     have hcs : c.cpath ≠ s := by
       rw [he]; intro e
-      have := congrArg List.length e
+      have h1 := congrArg List.length e
       have : r.length > 0 := List.length_pos_iff.mpr hr
-      simp at *
+      rw [List.length_append] at h1
       omega
     have hdrop : c.cpath.drop s.length = r := by rw [he]; simp
     have hps : pathStr c.cpath = pathStr s ++ '/' :: pathStr r := by rw [he]; exact pathStr_append hne hr
@@ -327,7 +327,7 @@ theorem root_prefix (filt : Filter) (root : Str) (its : List Item)
 theorem root_prefix_under (filt : Filter) (root : Str) (its : List Item)
     (hrel : ∀ it ∈ its, it.final.head? ≠ some '/') :
     (∀ ms, tarMembers filt root its = .ok ms → ∀ m ∈ ms, rootDir root <+: m.name) ∧
-    (∀ m ∈ zipMembers filt root its, rootDir root <+: m.name) := by
+    (∀ ke, ∀ m ∈ zipMembers ke filt root its, rootDir root <+: m.name) := by
   constructor
   · unfold tarMembers
     induction its with
@@ -350,7 +350,7 @@ theorem root_prefix_under (filt : Filter) (root : Str) (its : List Item)
             rw [pathjoin_eq root _ (hrel it List.mem_cons_self)] at h1
             cases hk : it.ent.kind <;> rw [hk] at h1 <;> cases h1 <;> exact List.prefix_append _ _
           · exact ih (fun x hx => hrel x (List.mem_cons_of_mem _ hx)) ms2 h2 m hm'
-  · intro m hm
+  · intro ke m hm
     unfold zipMembers at hm
     obtain ⟨it, hit, h1⟩ := List.mem_filterMap.mp hm
     unfold zipMember at h1
@@ -375,8 +375,8 @@ theorem dir_eq_tar_rootless (filt : Filter) (its : List Item) (hrel : ∀ it ∈
 def zipSuffix : Kind → Str
   | .dir => ['/'] | .symlink => ".lnk".toList | _ => []
 
-theorem zipMember_name (filt : Filter) (root : Str) (it : Item) (m : Member)
-    (hp : it.final.head? ≠ some '/') (h : zipMember filt root it = some m) :
+theorem zipMember_name (ke : Bool) (filt : Filter) (root : Str) (it : Item) (m : Member)
+    (hp : it.final.head? ≠ some '/') (h : zipMember ke filt root it = some m) :
     m.name = rootDir root ++ (it.final ++ zipSuffix it.ent.kind) := by
   unfold zipMember at h
   rw [pathjoin_eq root _ hp] at h
@@ -387,13 +387,13 @@ theorem zipMember_name (filt : Filter) (root : Str) (it : Item) (m : Member)
 members; see `zip_lnk_collision_witness` for what happens otherwise).  The
 other hypotheses hold for every export of a well-formed tree
 (`export_finals_nodup`; final paths are joins of good names). -/
-theorem zip_names_nodup_partial (filt : Filter) (root : Str) (its : List Item)
+theorem zip_names_nodup_partial (ke : Bool) (filt : Filter) (root : Str) (its : List Item)
     (hnd : (its.map (·.final)).Nodup)
     (hrel : ∀ it ∈ its, it.final.head? ≠ some '/')
     (hend : ∀ it ∈ its, it.final.getLast? ≠ some '/')
     (hlnk : ∀ a ∈ its, ∀ b ∈ its, a.ent.kind = .symlink → b.ent.kind ≠ .symlink →
               b.final ≠ a.final ++ ".lnk".toList) :
-    ((zipMembers filt root its).map (·.name)).Nodup := by
+    ((zipMembers ke filt root its).map (·.name)).Nodup := by
   unfold zipMembers
   rw [List.map_filterMap]
   apply nodup_filterMap_on _ (·.final) its hnd
@@ -401,8 +401,8 @@ theorem zip_names_nodup_partial (filt : Filter) (root : Str) (its : List Item)
   simp only [Option.map_eq_some_iff] at h1 h2
   obtain ⟨m, hm, hmn⟩ := h1
   obtain ⟨m', hm', hmn'⟩ := h2
-  have e1 := zipMember_name filt root a m (hrel a ha) hm
-  have e2 := zipMember_name filt root a' m' (hrel a' ha') hm'
+  have e1 := zipMember_name ke filt root a m (hrel a ha) hm
+  have e2 := zipMember_name ke filt root a' m' (hrel a' ha') hm'
   have e : a.final ++ zipSuffix a.ent.kind = a'.final ++ zipSuffix a'.ent.kind := by
     have : rootDir root ++ (a.final ++ zipSuffix a.ent.kind)
         = rootDir root ++ (a'.final ++ zipSuffix a'.ent.kind) := by rw [← e1, ← e2, hmn, hmn']
@@ -428,7 +428,22 @@ theorem zip_names_nodup_partial (filt : Filter) (root : Str) (its : List Item)
 is exported to a zip file with two members called `x.lnk` -/
 theorem zip_lnk_collision_witness :
     WF sampleTree = true ∧
-    ((zipMembers (fun _ c => c) [] (exportIter (specialOf none) none (sampleTree.map render))).map
+    ((zipMembers false (fun _ c => c) [] (exportIter (specialOf none) none (sampleTree.map render))).map
         (·.name)).count "x.lnk".toList = 2 := by decide
+
+/-- **Witness**: the zip exporter as found loses the executable bit (`ab` is
+executable in the sample tree) -/
+theorem zip_exec_dropped_witness :
+    (sampleTree.any fun c => c.cpath == ["ab".toList] && c.exec) = true ∧
+    ((zipMembers false (fun _ c => c) [] (exportIter (specialOf none) none (sampleTree.map render))).any
+        fun m => m.name == "ab".toList && !m.exec) = true := by decide
+
+/-- the zip exporter that records the mode keeps the executable bit of every file -/
+theorem zip_exec_kept (filt : Filter) (root : Str) (it : Item) (m : Member) (hk : it.ent.kind = .file)
+    (h : zipMember true filt root it = some m) : m.exec = it.ent.exec ∧ m.content = filt it.ent.path it.ent.content := by
+  unfold zipMember at h
+  rw [hk] at h
+  cases h
+  simp
 
 end BreezyVerif.C42
